@@ -113,6 +113,28 @@ fn gen_vehicle(rng: &mut Rng, net: &RefNet) -> (FrontierCfg, Map<String, Value>,
     (FrontierCfg::Vehicle { rows }, q, allowed)
 }
 
+/// a vehicle-restriction table for `net` (batch workloads: the vehicle comes with each query)
+pub fn gen_vehicle_cfg(rng: &mut Rng, net: &RefNet) -> FrontierCfg {
+    gen_vehicle(rng, net).0
+}
+
+/// well-formed vehicle parameters in random units
+pub fn random_vehicle_parameters(rng: &mut Rng) -> Value {
+    let mut d = |lo: f64, hi: f64, rng: &mut Rng| {
+        let u = rng.below(5);
+        json!([rng.frange(lo, hi) / U::dist_si(U::DISTANCE_UNITS[u]), DIST_NAMES[u]])
+    };
+    let wu = rng.below(3);
+    json!({
+        "height": d(1.5, 4.5, rng),
+        "width": d(1.5, 3.0, rng),
+        "total_length": d(4.0, 25.0, rng),
+        "trailer_length": d(0.5, 16.0, rng),
+        "total_weight": [rng.frange(1000.0, 40000.0) / U::weight_si(U::WEIGHT_UNITS[wu]), WEIGHT_NAMES[wu]],
+        "number_of_axles": rng.urange(2, 6),
+    })
+}
+
 /// edge-local restrictions: road classes, vehicle restrictions, or their conjunction
 pub fn gen_edge_local(rng: &mut Rng, net: &RefNet) -> Restrictions {
     let ne = net.ne();
